@@ -1193,12 +1193,19 @@ def r4_to_query_str(run):
         if n.kind != 'stmt':
             continue
         a = n.ast
+        # `acc += <pair>`, or the same written `acc = acc + <pair>` (the accumulator as the left operand of the outermost `+`)
+        piece = None
         if isinstance(a, ast.AugAssign) and isinstance(a.op, ast.Add) and isinstance(a.target, ast.Name):
+            piece = a.value
+        elif isinstance(a, ast.Assign) and len(a.targets) == 1 and isinstance(a.targets[0], ast.Name) and isinstance(a.value, ast.BinOp) \
+                and isinstance(a.value.op, ast.Add) and _is_name(a.value.left, a.targets[0].id):
+            piece = a.value.right
+        if piece is not None:
             if any(isinstance(x, ast.Call) and isinstance(x.func, ast.Attribute) and x.func.attr == 'join' and len(x.args) == 1
-                   and isinstance(x.args[0], ast.Name) and x.args[0].id in list_sep for x in walk_self(a.value)):
+                   and isinstance(x.args[0], ast.Name) and x.args[0].id in list_sep for x in walk_self(piece)):
                 continue        # the final assembly of a list accumulation, not a pair
             accs.append(n)
-            pair_of[n.id], sep_of[n.id] = a.value, None
+            pair_of[n.id], sep_of[n.id] = piece, None
         elif isinstance(a, ast.Expr) and isinstance(a.value, ast.Call) and isinstance(a.value.func, ast.Attribute) and a.value.func.attr == 'append' \
                 and isinstance(a.value.func.value, ast.Name) and a.value.func.value.id in list_sep:
             accs.append(n)
